@@ -10,6 +10,7 @@ import (
 	"os"
 	"sort"
 	"strings"
+	"sync"
 
 	"golang.org/x/tools/go/ssa"
 )
@@ -130,7 +131,11 @@ type Exec struct {
 	inInit    bool
 	initPkg   *ssa.Package
 	heapPrefix string
+	mayCallMemo map[*ssa.Function]map[string]bool
+	mayCallAll map[*ssa.Function]bool
+	qmu        sync.Mutex
 	preferInline bool
+	checkLocks bool
 	frameOn   bool
 	frameOff  int
 	modRefs   []*Term
@@ -769,6 +774,8 @@ func (x *Exec) loopEnter(fr *Frame, st *State, h *ssa.BasicBlock, ord int) {
 			delete(st.calls, strings.TrimPrefix(k, "call:"))
 		} else if cur, ok := st.ghost[k]; ok {
 			st.ghost[k] = x.c.Fresh("ghost", cur.S)
+		} else if strings.HasPrefix(k, "lock:") {
+			st.ghost[k] = x.c.Fresh("ghost", SInt)
 		} else {
 			st.ghost[k] = x.c.Fresh("ghost", idxSort)
 		}
@@ -983,6 +990,13 @@ func (x *Exec) loopBack(fr *Frame, st *State, h *ssa.BasicBlock, ord int) {
 			x.oblige(fr, st, "dec", label+":"+lc.Decreases.Label, pos,
 				And(BVCmp("bvsge", snap.measure[0], BVLit64(0, 64)), BVCmp("bvslt", m, snap.measure[0])))
 		}
+	}
+}
+
+// havocHeap forgets every heap component (a callee with `modifies *`); ghost state is handled by the caller.
+func (x *Exec) havocHeap(st *State) {
+	for _, k := range sortedHeapKeys(st.heap) {
+		x.havocComp(st, k)
 	}
 }
 
